@@ -20,6 +20,7 @@ K = [2]
 def variants(scn):
     s = len(str(scn)) % 2
     return [dict(mode="resub", pattern="overlap", tmap="spread", profile="plain", k=K[0], salt=s),
+            dict(mode="resub", pattern="overlap_mid", tmap="spread", profile="plain", k=K[0], salt=s),
             dict(mode="resub", pattern="seq", tmap="bunched", profile="plain", k=K[0], salt=1 - s)]
 
 
@@ -31,7 +32,7 @@ def run(tier):
     groups = oc.export_groups(ck, oc.ELEMENTWISE + oc.AGGREGATES, consts, "export")
     ck.exhaustive = True
     ck.rule = (f"every element-wise/aggregate scenario ({k} tokens, length 0..{n}) on a cold source, the same observable object subscribed "
-               "twice (overlapping by 3 ticks; sequentially); non-trivial = the operator keeps per-subscription state that matters "
+               "twice (overlapping by 3 ticks; starting between two elements of the first run; sequentially); non-trivial = the operator keeps per-subscription state that matters "
                "(output differs from the plain pass-through of the input)")
     ox.replay_groups(ck, groups, variants)
     # differential part: every non-multicasting catalogue operator with deterministic callbacks, second subscription vs first
